@@ -37,6 +37,8 @@ def gen_cases(tier, seed):
         if c["op"] in ("bce_loss", "bce_with_logits", "mse_loss") and c["n"] % 4 == 2:
             # hard 0/1 labels as they come out of a data pipeline: masks and label arrays of small integer types
             c["int_operands"] = {"1": ["uint8", "bool", "int8", "int16", "int64", "uint16"][(c["n"] // 4) % 6]}
+        if c["op"] == "batch_norm" and c["n"] % 3 == 0:
+            c["a"] = dict(c["a"], vclass="offset")          # |mean| >> std (300 +- 0.5): the statistics are still those of the data (two-pass accuracy)
         sv = SPECIAL_V.get(c["op"])
         if sv:
             c["a"] = dict(c["a"], vclass=sv[c["n"] % len(sv)])
